@@ -2,11 +2,12 @@ import H5V.Model.XmlTB
 import H5V.Model.XmlSer
 import H5V.Lemmas.XmlTB
 import H5V.Lemmas.XmlSer
+import H5V.Lemmas.XmlSerFixed
 /-!
 C17 — XML serializer output re-parses to the same namespaced tree.
 -/
 namespace H5V.Props.C17
-open H5V.Model.XmlTB H5V.Model.XmlSer H5V.Lemmas.XmlTB H5V.Lemmas.XmlSer
+open H5V.Model.XmlTB H5V.Model.XmlSer H5V.Lemmas.XmlTB H5V.Lemmas.XmlSer H5V.Lemmas.XmlSerFixed
 
 /-! ## 1. escaping is reversible -/
 
@@ -104,9 +105,38 @@ theorem okEvs_pre (scfg : SerCfg) (lcfg : LexCfg) (tcfg : TbCfg) (pst : List NsM
 theorem optStr_doctype (n : Str) : optStr (if n = [] then none else some n) = n := by
   unfold optStr; split <;> simp_all
 
-/-- Start phase: comments, PIs and doctypes before the root go to the document, ids dropped -/
+/-- what the parser can leave before the root element: comments, PIs and at most one doctype
+(`seen` = a doctype has already been appended; /repo commit b61995b) -/
+def preOK : Bool → List Node → Prop
+  | _, [] => True
+  | seen, .doctype _ _ _ :: rest => seen = false ∧ preOK true rest
+  | seen, .comment _ :: rest => preOK seen rest
+  | seen, .pi _ _ :: rest => preOK seen rest
+  | _, .text _ :: _ => False
+  | _, .elem _ _ _ :: _ => False
+
+theorem preOK_isPre (seen : Bool) (pre : List Node) (h : preOK seen pre) : ∀ x ∈ pre, isPre x = true := by
+  induction pre generalizing seen with
+  | nil => intro x hx; cases hx
+  | cons y rest ih =>
+    intro x hx
+    match y, h with
+    | .doctype _ _ _, h =>
+      rcases List.mem_cons.mp hx with rfl | hx
+      · rfl
+      · exact ih true h.2 x hx
+    | .comment _, h =>
+      rcases List.mem_cons.mp hx with rfl | hx
+      · rfl
+      · exact ih seen h x hx
+    | .pi _ _, h =>
+      rcases List.mem_cons.mp hx with rfl | hx
+      · rfl
+      · exact ih seen h x hx
+
+/-- Start phase: comments, PIs and the doctype before the root go to the document, ids dropped -/
 theorem run_pre (scfg : SerCfg) (lcfg : LexCfg) (tcfg : TbCfg) (pre : List Node)
-    (hpre : ∀ x ∈ pre, isPre x = true) (s : State) (more : List Token)
+    (s : State) (more : List Token) (hpre : preOK s.doctypeSeen pre)
     (hp : s.phase = .start) (ho : s.opened = []) (hr : s.root = none) :
     ∃ s', run tcfg s ((pre.map evOfMisc).filterMap (lexEv scfg lcfg) ++ more) = run tcfg s' more ∧
       s'.phase = .start ∧ s'.opened = [] ∧ s'.root = none ∧ s'.nsStack = s.nsStack ∧
@@ -114,33 +144,35 @@ theorem run_pre (scfg : SerCfg) (lcfg : LexCfg) (tcfg : TbCfg) (pre : List Node)
   induction pre generalizing s with
   | nil => exact ⟨s, rfl, hp, ho, hr, rfl, by simp, rfl⟩
   | cons x xs ih =>
-    have hx := hpre x (by simp)
-    have hrs : ∀ y ∈ xs, isPre y = true := fun y hy => hpre y (by simp [hy])
     have hroot : s.hasRoot = false := by simp [State.hasRoot, ho, hr]
-    match x, hx with
-    | .comment c, _ =>
-      obtain ⟨s', h', a, b, c', d, e, f⟩ := ih hrs (s.appendDoc (.comment c)) (by simp [State.appendDoc, hroot, hp])
-        (by simp [State.appendDoc, hroot, ho]) (by simp [State.appendDoc, hroot, hr])
+    match x, hpre with
+    | .comment c, hpre =>
+      obtain ⟨s', h', a, b, c', d, e, f⟩ := ih (s.appendDoc (.comment c)) (by simpa [State.appendDoc, hroot, preOK] using hpre)
+        (by simp [State.appendDoc, hroot, hp]) (by simp [State.appendDoc, hroot, ho]) (by simp [State.appendDoc, hroot, hr])
       refine ⟨s', ?_, a, b, c', by simpa [State.appendDoc, hroot] using d, ?_, by simpa [State.appendDoc, hroot] using f⟩
       · simp only [List.map_cons, evOfMisc, List.filterMap_cons, lexEv, List.cons_append]
         rw [run_cons]; unfold step; simp only [hp, Except.bind]; exact h'
       · rw [e]; simp [State.appendDoc, hroot, stripId]
-    | .pi t d, _ =>
-      obtain ⟨s', h', a, b, c', d', e, f⟩ := ih hrs (s.appendDoc (.pi t d)) (by simp [State.appendDoc, hroot, hp])
-        (by simp [State.appendDoc, hroot, ho]) (by simp [State.appendDoc, hroot, hr])
+    | .pi t d, hpre =>
+      obtain ⟨s', h', a, b, c', d', e, f⟩ := ih (s.appendDoc (.pi t d)) (by simpa [State.appendDoc, hroot, preOK] using hpre)
+        (by simp [State.appendDoc, hroot, hp]) (by simp [State.appendDoc, hroot, ho]) (by simp [State.appendDoc, hroot, hr])
       refine ⟨s', ?_, a, b, c', by simpa [State.appendDoc, hroot] using d', ?_, by simpa [State.appendDoc, hroot] using f⟩
       · simp only [List.map_cons, evOfMisc, List.filterMap_cons, lexEv, List.cons_append]
         rw [run_cons]; unfold step; simp only [hp, Except.bind]; exact h'
       · rw [e]; simp [State.appendDoc, hroot, stripId]
-    | .doctype n p sy, _ =>
-      obtain ⟨s', h', a, b, c', d', e, f⟩ := ih hrs (s.appendDoc (.doctype n [] [])) (by simp [State.appendDoc, hroot, hp])
-        (by simp [State.appendDoc, hroot, ho]) (by simp [State.appendDoc, hroot, hr])
-      refine ⟨s', ?_, a, b, c', by simpa [State.appendDoc, hroot] using d', ?_, by simpa [State.appendDoc, hroot] using f⟩
+    | .doctype n p sy, hpre =>
+      obtain ⟨hseen, hrest⟩ := hpre
+      obtain ⟨s', h', a, b, c', d', e, f⟩ := ih (({ s with doctypeSeen := true } : State).appendDoc (.doctype n [] []))
+        (by simpa [State.appendDoc, State.hasRoot, ho, hr] using hrest)
+        (by simp [State.appendDoc, State.hasRoot, ho, hr, hp]) (by simp [State.appendDoc, State.hasRoot, ho, hr])
+        (by simp [State.appendDoc, State.hasRoot, ho, hr])
+      refine ⟨s', ?_, a, b, c', by simpa [State.appendDoc, State.hasRoot, ho, hr] using d', ?_,
+        by simpa [State.appendDoc, State.hasRoot, ho, hr] using f⟩
       · simp only [List.map_cons, evOfMisc, List.filterMap_cons, lexEv, List.cons_append]
-        rw [run_cons]; unfold step; simp only [hp, Except.bind, optStr_doctype]
+        rw [run_cons]; unfold step; simp only [hp, hseen, Bool.false_eq_true, ↓reduceIte, Except.bind, optStr_doctype]
         have : optStr none = [] := rfl
-        simp only [this]; exact h'
-      · rw [e]; simp [State.appendDoc, hroot, stripId]
+        simp only [this]; rw [hp] at h'; exact h'
+      · rw [e]; simp [State.appendDoc, State.hasRoot, ho, hr, stripId]
 
 /-- End phase: comments and PIs after the root go to the document -/
 theorem run_post (scfg : SerCfg) (lcfg : LexCfg) (tcfg : TbCfg) (post : List Node)
@@ -198,8 +230,8 @@ theorem step_main_end_root (cfg : TbCfg) (s : State) (g : Frame) (nm : RName)
   · unfold applyNs; simp only []; split <;> rfl
   · unfold applyNs; simp only []; split <;> rfl
 
-/-- **C17 (round trip)**, `_partial`.  A document as the parser builds it — comments / PIs /
-doctypes, then the root element, then comments / PIs; element content without doctypes, empty text
+/-- **C17 (round trip)**, `_partial`.  A document as the parser builds it — comments / PIs / at most
+one doctype (`preOK`), then the root element, then comments / PIs; element content without doctypes, empty text
 or adjacent text nodes, no U+000D in text (`nodesOK`) — is serialized to an event stream; that stream,
 lexed (`lexEv`: names split at the colon, references decoded, CR/LF normalised, declarations and
 attributes through the tokenizer's duplicate-attribute step) and fed to the tree-builder model, yields
@@ -212,16 +244,17 @@ far, to the element's own name and attribute list (`okEvs`, a decidable check on
 Full statement (the property): no `okEvs` hypothesis, no CR proviso.  It is false on the pinned
 tree — `C17_witness_attr_prefix` (15a), `C17_witness_default_undeclared` (15b), `C17_witness_cr`
 (15c), `C17_witness_sibling_leak` (15d), `C17_witness_item14` — because the serializer does not write
-the declarations `okEvs` asks for.  NOT PROVED: that the serializer with all fixes
-(`SerCfg.fixed`) satisfies `okEvs` for every parsed tree; `C17_fixed_examples` checks it on the
-witness documents. -/
+the declarations `okEvs` asks for.  For the serializer with the fixes (`SerCfg.fixed`, what /repo
+does now) `okEvs` is a theorem (`C17_okEvs_fixed`), giving `C17_roundtrip_fixed` without side
+condition. -/
 theorem C17_roundtrip_partial (scfg : SerCfg) (lcfg : LexCfg) (tcfg : TbCfg)
     (pre post ks : List Node) (n : QName) (as : List Attr)
-    (hpre : ∀ x ∈ pre, isPre x = true) (hpost : ∀ x ∈ post, isMisc x = true)
+    (hpre' : preOK false pre) (hpost : ∀ x ∈ post, isMisc x = true)
     (hks : nodesOK scfg false ks)
     (hok : okEvs scfg lcfg tcfg [defaultMap] (serDoc scfg (pre ++ .elem n as ks :: post)) = true) :
     ∃ s, reparse scfg lcfg tcfg (pre ++ .elem n as ks :: post) = .ok s ∧
       s.document = pre.map stripId ++ .elem n as ks :: post := by
+  have hpre := preOK_isPre false pre hpre'
   unfold reparse lexAll
   have hsp := serNodes_spells scfg [] (pre ++ .elem n as ks :: post)
   change Spells (serDoc scfg (pre ++ .elem n as ks :: post)) _ at hsp
@@ -237,9 +270,9 @@ theorem C17_roundtrip_partial (scfg : SerCfg) (lcfg : LexCfg) (tcfg : TbCfg)
     obtain ⟨⟨hbn, hba⟩, hok2⟩ := hok
     rw [okEvs_append scfg lcfg tcfg hk, Bool.and_eq_true] at hok2
     -- prolog
-    obtain ⟨s1, h1, hp1, ho1, hr1, hns1, hdb1, hda1⟩ := run_pre scfg lcfg tcfg pre hpre State.init
+    obtain ⟨s1, h1, hp1, ho1, hr1, hns1, hdb1, hda1⟩ := run_pre scfg lcfg tcfg pre State.init
       ((Ev.startTag n decls as :: (kevs ++ Ev.endTag n :: (post.map evOfMisc ++ []))).filterMap (lexEv scfg lcfg) ++ [.eof])
-      rfl rfl rfl
+      hpre' rfl rfl rfl
     -- root start tag
     obtain ⟨s2, h2, hp2, ho2, hns2, hd2⟩ := step_start_root tcfg s1 (splitQName (rawName n))
       (tagOf scfg lcfg n decls as).attrs hp1 ho1
@@ -366,5 +399,48 @@ example : okEvs SerCfg.code LexCfg.code TbCfg.code [defaultMap] (serDoc SerCfg.c
 
 example : ∃ s, reparse SerCfg.code LexCfg.code TbCfg.code docGood = .ok s ∧
     s.document = docGood.map stripId := ⟨_, rfl, rfl⟩
+
+/-! ## 4. the serializer with the fixes (what /repo does now): no side condition on the output -/
+
+/-- **C17 (declarations)**: for every tree all of whose tags are parser-produced (`treesOK`: names that
+re-split to themselves, `xml`/`xmlns` prefixes with their fixed URIs, the xmlns URI nowhere else, no
+declaration attributes, unprefixed attributes in no namespace, distinct attribute names and expanded
+names, one namespace per prefix within a tag) the fixed serializer writes declarations such that every
+start tag — lexed, through the tokenizer's attribute step and `process_namespaces` — resolves to the
+element's own name and attribute list. -/
+theorem C17_okEvs_fixed (doc : List Node) (h : treesOK doc) :
+    okEvs SerCfg.fixed LexCfg.fixed TbCfg.fixed [defaultMap] (serDoc SerCfg.fixed doc) = true :=
+  okEvs_fixed doc h
+
+/-- **C17 (round trip) for the fixed serializer, tokenizer step and tree builder**: every parsed-shape
+document with parser-produced tags comes back unchanged (doctype ids dropped) — element and attribute
+prefixes, namespace URIs, local names, attribute order and values, text (U+000D included), comments,
+PIs, nesting.  No `okEvs` hypothesis, no CR proviso.  What remains assumed is `lexEv`, the
+tokenization of the serializer's output (see `H5V.Model.XmlSer`). -/
+theorem C17_roundtrip_fixed (pre post ks : List Node) (n : QName) (as : List Attr)
+    (hpre : preOK false pre) (hpost : ∀ x ∈ post, isMisc x = true)
+    (hks : nodesOK SerCfg.fixed false ks)
+    (htags : treesOK (pre ++ .elem n as ks :: post)) :
+    ∃ s, reparse SerCfg.fixed LexCfg.fixed TbCfg.fixed (pre ++ .elem n as ks :: post) = .ok s ∧
+      s.document = pre.map stripId ++ .elem n as ks :: post :=
+  C17_roundtrip_partial SerCfg.fixed LexCfg.fixed TbCfg.fixed pre post ks n as hpre hpost hks
+    (C17_okEvs_fixed _ htags)
+
+-- non-vacuity of `C17_roundtrip_fixed`: `<a xmlns:p="u" p:x="1"><p:b/>x&#13;y</a><!--c-->`, the 15a / 15c witness
+example : ∃ s, reparse SerCfg.fixed LexCfg.fixed TbCfg.fixed
+      ([] ++ .elem (qn none "" "a") [at' (some "p") "u" "x" "1"]
+        [el (some "p") "u" "b" [] [], .text ['x', '\r', 'y']] :: [.comment ['c']]) = .ok s ∧
+    s.document = [].map stripId ++ .elem (qn none "" "a") [at' (some "p") "u" "x" "1"]
+        [el (some "p") "u" "b" [] [], .text ['x', '\r', 'y']] :: [.comment ['c']] := by
+  apply C17_roundtrip_fixed
+  · trivial
+  · intro x hx; simp at hx; subst hx; rfl
+  · simp [nodesOK, nodeOK, el, SerCfg.fixed]
+  · simp only [List.nil_append, treesOK, treeOK, el, and_true]
+    refine ⟨⟨⟨⟨by decide, by decide⟩, by decide, by decide, by decide⟩, ?_, by decide, by decide, by decide⟩,
+      ⟨⟨⟨by decide, by decide⟩, by decide, by decide, by decide⟩, by simp, by decide, by decide, by decide⟩⟩
+    intro a ha
+    simp at ha; subst ha
+    exact ⟨⟨by decide, by decide⟩, by decide, by decide, by decide, by decide⟩
 
 end H5V.Props.C17
